@@ -6,10 +6,18 @@ open Compio Compio.SyncStream
 
 namespace C12
 
+/-- the stream under test; `rp`/`wp`: a call on that half panicked, the harness (and so the driver)
+skips every later call on the half (a poisoned object is not used any more) -/
 inductive Sut where
   | none
-  | sync (s : SyncStream.State)
-  | async (s : PollAdapter.State)
+  | sync (s : SyncStream.State) (rp wp : Bool)
+  | async (s : PollAdapter.State) (rp wp : Bool)
+
+/-- 0 = read half, 1 = write half, 2 = neither -/
+def syncHalf : SyncStream.Op → Nat
+  | .read _ | .rbu _ | .fillbuf | .consume _ | .fill _ => 0
+  | .write _ | .wflush _ => 1
+  | _ => 2
 
 def allSome {α} : List (Option α) → Option (List α)
   | [] => some []
@@ -107,27 +115,34 @@ def step (sut : Sut) (line : String) : Sut × String :=
     | some base, some max, some rs, some ws =>
       if kind = "sync" then
         let s := SyncStream.State.new base max rs ws
-        (.sync s, "ok" ++ obs [] [] ++ syncSt s)
+        (.sync s false false, "ok" ++ obs [] [] ++ syncSt s)
       else if kind = "async" then
-        (.async (PollAdapter.State.new base max rs ws), "ok" ++ obs [] [])
+        (.async (PollAdapter.State.new base max rs ws) false false, "ok" ++ obs [] [])
       else (sut, "bad-op")
     | _, _, _, _ => (sut, "bad-op")
   | w =>
     match sut with
     | .none => (sut, "bad-op")
-    | .sync s =>
+    | .sync s rp wp =>
       match parseSyncOp w with
       | none => (sut, "bad-op")
       | some op =>
+        let h := syncHalf op
+        if (h == 0 && rp) || (h == 1 && wp) then (sut, "skip") else
         let (s', o) := SyncStream.step s op
-        (.sync s', showSyncOut o ++ obs (s'.r.log ++ s'.w.log) (s'.r.woken ++ s'.w.woken) ++ syncSt s')
-    | .async s =>
+        let pan := o == .panic
+        (.sync s' (rp || (pan && h == 0)) (wp || (pan && h == 1)),
+         showSyncOut o ++ obs (s'.r.log ++ s'.w.log) (s'.r.woken ++ s'.w.woken) ++ syncSt s')
+    | .async s rp wp =>
       match parseAsyncOp w with
       | none => (sut, "bad-op")
       | some op =>
+        let rd := isReadOp op
+        if (rd && rp) || (!rd && wp) then (sut, "skip") else
         let (s', o) := PollAdapter.step s op
-        let ob := if isReadOp op then obs s'.ar.r.log s'.ar.r.woken else obs s'.aw.w.log s'.aw.w.woken
-        (.async s', showAsyncOut op o ++ ob)
+        let pan := o == .panic
+        let ob := if rd then obs s'.ar.r.log s'.ar.r.woken else obs s'.aw.w.log s'.aw.w.woken
+        (.async s' (rp || (pan && rd)) (wp || (pan && !rd)), showAsyncOut op o ++ ob)
 
 end C12
 
